@@ -308,8 +308,47 @@ def _first_diff(a, b):
     return (None, None)
 
 
+ABA_X = """[$default byte_order: "LittleEndian"]
+struct Foo:
+  0 [+1]  bits:
+    0 [+4]  UInt  lo
+    4 [+4]  UInt  hi
+  1 [+2]  bits:
+    0 [+9]  UInt  wide
+  3 [+1]  UInt  tail
+"""
+ABA_Y = """[$default byte_order: "LittleEndian"]
+struct Foo:
+  0 [+1]  bits:
+    0 [+8]  UInt  all
+  1 [+1]  UInt  other
+"""
+
+
+def aba_history(stats, sets):
+    """Literal history that is part of every run: compile X, compile a different text under the same
+    file name, compile X again - with the compiler's caches left alone.  The three outputs of X
+    (first, again, and after something else used its file name) must be byte-identical."""
+    candidates = [({"m.emb": ABA_X}, "m.emb")] + [s_ for s_ in sets if re.search(r"(?m)^\s+\S.*\bbits:\s*$", s_[0][s_[1]])][:3]
+    other = ({"m.emb": ABA_Y}, "m.emb")
+    for files, main in candidates:
+        first = compile_output(files, main, reset=False)
+        compile_output({main: ABA_Y} if main != "m.emb" else other[0], main, reset=False)
+        again = compile_output(files, main, reset=False)
+        stats.case(["aba", files, main], True, ["history:A-B-A"], sample=None)
+        if (first[0], first[2]) != (again[0], again[2]):
+            which = "diagnostics" if first[0] != again[0] else "header"
+            d = _first_diff(first[0] or first[2] or "", again[0] or again[2] or "")
+            stats.fail({"kind": "repetition-dependence", "what": which, "how": "A-B-A"}, {"files": files, "main": main, "how": "A-B-A"}, "compiling the same source again, after another text was compiled under the same file name, changed the %s\nfirst: %r\nagain: %r" % (which, d[0], d[1]))
+
+
 def history_shard(idx, seed, sets, n_examples, steps):
     stats = vlib.Stats()
+    if idx == 0:
+        try:
+            aba_history(stats, sets)
+        except Exception:
+            stats.fail(dict(kind="history-machine-exception", **emb.exc_signature()), {}, traceback.format_exc())
     rnd = random.Random(seed * 7 + idx)
     sub = [sets[i] for i in sorted(rnd.sample(range(len(sets)), min(len(sets), 10)))]
     M = make_machine(sub, stats, idx)
